@@ -52,4 +52,34 @@ def Heap.getIndex (hp : Heap V) (r : Nat) (k : Int) : Attr V :=
 def Heap.addMethod [Inhabited V] (hp : Heap V) (k : Int) (fn : V) : Option (Heap V) :=
   (hp.ty.methods.set k fn).map fun ms => { hp with ty := { hp.ty with methods := ms } }
 
+/-! ### the type object as declarations build it (STRUCT, GLOBALSTRUCT, addField, syncFields) -/
+
+/-- a struct TYPE object as the declarations build it (`structT.Order`, `structT.Fields`; a field
+    name and its index are one key here: the index is the global number of the name) -/
+structure TObj (V : Type) where
+  order : List Int
+  fields : IM V
+
+/-- `addField(key, idx, val)`: append to `Order` unless the name is known, `Fields.Set(idx, val)` -/
+def TObj.addField [Inhabited V] (t : TObj V) (k : Int) (v : V) : Option (TObj V) :=
+  (t.fields.set k v).map fun f => { order := if k ∈ t.order then t.order else t.order ++ [k], fields := f }
+
+def TObj.addAll [Inhabited V] (t : TObj V) (kvs : List (Int × V)) : Option (TObj V) :=
+  kvs.foldlM (fun t kv => t.addField kv.1 kv.2) t
+
+/-- `STRUCT n`: a fresh type object from the declared (name, zero value) pairs -/
+def TObj.declare [Inhabited V] (decl : List (Int × V)) : Option (TObj V) :=
+  TObj.addAll { order := [], fields := Goat.IntMap.new (decl.length) } decl
+
+/-- the (name, value) pairs of a type object in declaration order -/
+def TObj.entries (t : TObj V) : List (Int × V) :=
+  t.order.filterMap fun k => (t.fields.get k).map fun v => (k, v)
+
+/-- `GLOBALSTRUCT` on a name that already holds a type: `prev.syncFields(cur)` -/
+def TObj.sync [Inhabited V] (prev cur : TObj V) : Option (TObj V) := prev.addAll cur.entries
+
+/-- `Order` after adding the names `ks` one by one -/
+def orderAfter (o : List Int) (ks : List Int) : List Int :=
+  ks.foldl (fun o k => if k ∈ o then o else o ++ [k]) o
+
 end Goat.Struct
